@@ -57,7 +57,7 @@ MANIFEST_TEXT = ('Exhaustive enumeration of interval sets on one contig against 
                  'fragment length 1..S+1 (<= 2 intervals); clip; all ordered pairs of internally disjoint sets for '
                  'count_overlap/intersect (S<=5, S=6 in canonical order); all pairs of multisets for unique_intersect/'
                  'jaccard/forbes for S<=3, S=4 (of the 3x3 pairs a seed-rotated quarter), S=5 up to 3 intervals in total. '
-                 'Within a case all operations run on the same operand objects, which must still denote the given sets after every call. thorough: everything at S<=6 with <= 3 intervals, all '
+                 'A size ladder (N = 2^k-1/2^k/2^k+1, 10^k+-1 intervals up to 2^16, thorough 2^19, in a scrambled order) compares pileup, mask, merge, sort, count_overlap and intersect with whole-array NumPy arithmetic. Within a case all operations run on the same operand objects, which must still denote the given sets after every call. thorough: everything at S<=6 with <= 3 intervals, all '
                  'multiset pairs for S<=5 and pairs with <= 4 intervals in total at S=6.')
 MANIFEST_NOTE = ('Trusted: NumPy, npstructures run-length arrays (observed via to_array and via starts/ends/values), CPython, '
                  'engine/observe.py, models/intervals.py (plain per-base Python).')
@@ -244,7 +244,7 @@ def shards(tier, seed):
     target_ms = 7000.0 if tier == 'quick' else 40000.0
     out = []
     small = []
-    order = ['cov', 'merge', 'sort', 'extend', 'clip', 'pair_disjoint', 'pair_uniq', 'pair_multi', 'bundle']
+    order = ['cov', 'merge', 'sort', 'extend', 'clip', 'pair_disjoint', 'pair_uniq', 'pair_multi', 'bundle', 'ladder']
     for spec in _specs(tier, seed):
         n_outer = len(_outer(spec['space'], spec['S'], spec['kmax'], _variant(spec)))
         cost = _count_cases(spec) * COST_MS[_cost_key(spec)]
@@ -269,7 +269,23 @@ def shards(tier, seed):
             bcost += cost
     # simplest first (small contigs first), so that the exemplar kept for a failure group is a small one
     out.sort(key=lambda d: (d['S'], order.index(d['space']), d['k']))
+    sizes = ladder_sizes(tier)
+    for i in range(0, len(sizes), 4):
+        out.append({'space': 'ladder', 'ns': sizes[i:i + 4], 'S': 10 ** 9, 'k': 0, 'K': 1, 'tier': tier, 'seed': seed,
+                    'est_ms': round(sum(sizes[i:i + 4]) * 0.02)})
     return out
+
+
+# Size ladder: the sub-spaces above decide every arrangement of a few intervals; a path chosen by the NUMBER of intervals
+# (or of bases) needs many.  For every ladder size N: N intervals in a fixed scrambled order on one contig, pushed through
+# pileup / mask / merge / sort / count_overlap / intersect and compared with whole-array NumPy arithmetic on dense arrays.
+def ladder_sizes(tier):
+    ns = set()
+    for k in range(6, (17 if tier == 'quick' else 20)):
+        ns.update((2 ** k - 1, 2 ** k, 2 ** k + 1))
+    for k in range(2, 5 if tier == 'quick' else 6):
+        ns.update((10 ** k - 1, 10 ** k, 10 ** k + 1))
+    return sorted(ns)
 
 
 def _iter_cases(spec):
@@ -278,6 +294,10 @@ def _iter_cases(spec):
         for sub in spec['specs']:
             for case in _iter_cases(sub):
                 yield case
+        return
+    if spec['space'] == 'ladder':
+        for n in spec['ns']:
+            yield {'space': 'ladder', 'S': 2 * n + 3, 'n': n}
         return
     sp, S, k, K = spec['space'], spec['S'], spec['k'], spec['K']
     outer = _outer(sp, S, spec['kmax'], _variant(spec))
@@ -812,7 +832,86 @@ def check_pair_multi(res, case):
     return {'expected': {'unique_intersect': exp_u, 'jaccard': ej, 'forbes': ef}, 'observed': cx.obs}
 
 
-CHECKERS = {'cov': check_cov, 'merge': check_merge, 'sort': check_sort, 'extend': check_extend, 'clip': check_clip,
+def check_ladder(res, case):
+    np = _np()
+    n, S = case['n'], case['S']
+    from bionumpy.datatypes import Interval
+    from bionumpy.arithmetics import get_pileup, get_boolean_mask, merge_intervals, sort_intervals, count_overlap, intersect
+    i = np.arange(n, dtype=np.int64)
+    start = (i * 7919 + (i * i) % 13) % (S - 6)
+    stop = start + 1 + (i * i + i // 3) % 5
+    size = '<=10^3' if n <= 1000 else ('10^3..10^5' if n <= 10 ** 5 else '>10^5')
+    feats0 = {'space': 'ladder', 'intervals': size}
+    diff = np.zeros(S + 1, dtype=np.int64)
+    np.add.at(diff, start, 1)
+    np.add.at(diff, stop, -1)
+    cov = np.cumsum(diff)[:S]
+    msk = cov > 0
+    edges = np.flatnonzero(np.diff(np.concatenate([[0], msk.astype(np.int8), [0]])))
+    runs = list(zip(edges[0::2].tolist(), edges[1::2].tolist()))
+    order = np.lexsort((stop, start))
+
+    def table(a, b):
+        return Interval([CHR] * len(a), np.array(a, dtype=int), np.array(b, dtype=int))
+
+    def run(op, call, judge):
+        res.transitions += 1
+        feats = dict(feats0, op=op)
+        try:
+            out = call()
+            bad = judge(out)
+        except observe.ObserverError:
+            raise
+        except Exception as e:
+            res.fail(op + ':call-succeeds', case, feats, expected='a result', observed='raises ' + exc_name(e), tb=tb_string(e))
+            res.outcome('ladder:%s:raises' % op)
+            return
+        if bad:
+            res.fail(bad[0], case, feats, expected=bad[1], observed=bad[2])
+        res.outcome('ladder:%s:%s:%s' % (op, size, 'differs' if bad else 'ok'))
+
+    def dense_judge(kind, expected):
+        def judge(r):
+            got = np.asarray(r.to_array())
+            if got.shape != expected.shape or not np.array_equal(got, expected):
+                j = int(np.flatnonzero(got[:len(expected)] != expected[:len(got)])[0]) if got.shape == expected.shape else None
+                return (kind, {'length': int(expected.size), 'first_difference_at': j, 'value': None if j is None else int(expected[j])},
+                        {'length': int(got.size), 'first_difference_at': j, 'value': None if j is None else int(got[j])})
+        return judge
+
+    def rows_judge(kind, exp_start, exp_stop):
+        def judge(t):
+            gs, ge = np.asarray(t.start), np.asarray(t.stop)
+            if gs.shape != np.shape(exp_start) or not (np.array_equal(gs, exp_start) and np.array_equal(ge, exp_stop)):
+                return (kind, {'rows': len(exp_start), 'head': [list(map(int, exp_start[:3])), list(map(int, exp_stop[:3]))]},
+                        {'rows': int(gs.size), 'head': [gs[:3].tolist(), ge[:3].tolist()]})
+        return judge
+
+    res.evaluations += 1
+    res.states += 1
+    res.planned += 1
+    res.traces += 1
+    res.nontrivial += 1
+    run('get_pileup', lambda: get_pileup(table(start, stop), S), dense_judge('pileup-equals-coverage', cov))
+    run('get_boolean_mask', lambda: get_boolean_mask(table(start, stop), S), dense_judge('mask-equals-coverage-positive', msk))
+    run('merge_intervals', lambda: merge_intervals(table(start[order], stop[order]), 0),
+        rows_judge('merge-equals-maximal-runs', np.array([a for a, b in runs]), np.array([b for a, b in runs])))
+    run('sort_intervals', lambda: sort_intervals(table(start, stop)),
+        rows_judge('sort-ordered-by-chromosome-start-stop', start[order], stop[order]))
+    a0, b0 = 4 * i, 4 * i + 1
+    scr = np.argsort((i * 7919) % max(n, 1), kind='stable')
+    run('count_overlap', lambda: count_overlap(table(a0[scr], a0[scr] + 2), table(b0, b0 + 2)),
+        lambda v: None if ints(v) == [n] else ('count_overlap-equals-per-base', n, ints(v)))
+
+    def judge_intersect(t):
+        gs, ge = np.sort(np.asarray(t.start)), np.sort(np.asarray(t.stop))
+        if not (np.array_equal(gs, b0) and np.array_equal(ge, b0 + 1)):
+            return ('intersect-equals-per-base', {'pieces': n}, {'pieces': int(gs.size), 'head': [gs[:3].tolist(), ge[:3].tolist()]})
+    run('intersect', lambda: intersect(table(a0[scr], a0[scr] + 2), table(b0, b0 + 2)), judge_intersect)
+    return {'expected': {'intervals': n}, 'observed': {}}
+
+
+CHECKERS = {'ladder': check_ladder, 'cov': check_cov, 'merge': check_merge, 'sort': check_sort, 'extend': check_extend, 'clip': check_clip,
             'pair_disjoint': check_pair_disjoint, 'pair_multi': check_pair_multi}
 
 
@@ -855,6 +954,8 @@ def repro_py(case):
             'np.array([b for a, b in ivs], dtype=int))\n')
     sp = case['space']
     S = case['S']
+    if sp == 'ladder':
+        return head + '# size ladder: %d intervals on a contig of %d bases, see check_ladder() in checks/c08_intervals.py\n' % (case['n'], S)
     if sp == 'cov':
         return head + ('from bionumpy.arithmetics import get_pileup, get_boolean_mask\nivs = %r\n'
                        'print(get_pileup(I(ivs), %d).to_array())\nprint(get_boolean_mask(I(ivs), %d).to_array())\n'
